@@ -72,13 +72,17 @@ def checkOp (ct : String) (op : String) (impl : String) : Verdict :=
 def check (input impl : String) : Verdict :=
   match fields input ";" with
   | hd :: ops =>
-    match words hd with
-    | ["cfg", ct] =>
+    -- "cfg <topic> bp": the client's produce channel holds one record and is drained slowly (backpressure); the property
+    -- does not depend on it, so neither does the model
+    let run := fun (ct : String) (bp : Bool) =>
       let obs := fields impl ";"
       let vs := (ops.zip (obs ++ List.replicate (ops.length - obs.length) "missing")).map (fun x => checkOp ct x.1 x.2)
-      { model := joinWith " ; " (vs.map (·.model)),
-        spec := if obs.length ≠ ops.length then some "observation-length" else vs.findSome? (·.spec),
-        tags := (vs.flatMap (·.tags)).eraseDups ++ (if ops.length > 1 then ["sequence"] else []) }
+      ({ model := joinWith " ; " (vs.map (·.model)),
+         spec := if obs.length ≠ ops.length then some "observation-length" else vs.findSome? (·.spec),
+         tags := (vs.flatMap (·.tags)).eraseDups ++ (if ops.length > 1 then ["sequence"] else []) ++ (if bp then ["backpressure"] else []) } : Verdict)
+    match words hd with
+    | ["cfg", ct] => run ct false
+    | ["cfg", ct, "bp"] => run ct true
     | _ => { model := "bad-input" }
   | _ => { model := "bad-input" }
 
